@@ -2,8 +2,8 @@
 // bounds: x = 1.m * 2^64, all 2^52 mantissas; unwind 68 (checked)
 // functions: rusty_variant::bits::f64_int_bits
 // failed check: assertion failed: got.len() == 64
-//   assertion failed: got.len() == 64 at rusty_variant/src/bits.rs:3299:17 in function bits::vk_c19::vk_c19_mkd_int_bits_e64
-// native replay: dev=True release=False dev/kani_concrete_playback_vk_c19_mkd_int_bits_e64_7904737410727150769: panicked at rusty_variant/src/bits.rs:3299:17: assertion failed: got.len() == 64; release/kani_concrete_playback_vk_c19_mkd_int_bits_e64_7904737410727150769: native build failed
+//   assertion failed: got.len() == 64 at rusty_variant/src/bits.rs:2312:17 in function bits::vk_c19::vk_c19_mkd_int_bits_e64
+// native replay: dev=True release=True dev/kani_concrete_playback_vk_c19_mkd_int_bits_e64_7904737410727150769: panicked at rusty_variant/src/bits.rs:2312:17: assertion failed: got.len() == 64; release/kani_concrete_playback_vk_c19_mkd_int_bits_e64_7904737410727150769: panicked at rusty_variant/src/bits.rs:2312:17: assertion failed: got.len() == 64
 // BASIC program reaching the failing call:
 //   PRINT CVD(MKD$(1.6D+20))
 // Replay: ./vk replay /verif/replays/C19-vk_c19_mkd_int_bits_e64.rs   (re-injects the harness module below into a scratch copy of /repo,
